@@ -103,8 +103,25 @@ func New(prop string) *Run {
 	return r
 }
 
+// ReadJSON decodes a JSON file.
+func ReadJSON(path string, v any) error {
+	b, err := os.ReadFile(path)
+	if err != nil {
+		return err
+	}
+	return json.Unmarshal(b, v)
+}
+
 func (r *Run) loadFindings() {
-	b, err := os.ReadFile(filepath.Join(Root, "known_findings.json"))
+	r.loadFindingsFile(filepath.Join(Root, "known_findings.json"))
+	if os.Getenv("VERIF_PROPOSED") != "" {
+		// Development only: findings proposed but not yet merged.
+		r.loadFindingsFile(filepath.Join(Root, "proposed", r.Prop+"-findings.json"))
+	}
+}
+
+func (r *Run) loadFindingsFile(path string) {
+	b, err := os.ReadFile(path)
 	if err != nil {
 		return
 	}
@@ -343,7 +360,7 @@ func (r *Run) Finish() {
 	}
 	for _, f := range r.findings {
 		if f.Status == "open" && (r.knownWitness[f.ID] || r.knownSeen[f.ID] > 0) {
-			fmt.Printf("KNOWN-FINDING: property=%s %s: %s (witness fails: %v, generated cases attributed: %d)\n", r.Prop, f.ID, f.What, r.knownWitness[f.ID], r.knownSeen[f.ID])
+			fmt.Printf("KNOWN-FINDING: property=%s %s: %s (cases attributed this run, witness included: %d)\n", r.Prop, f.ID, f.What, r.knownSeen[f.ID]+b2i(r.knownWitness[f.ID]))
 		}
 	}
 	fmt.Printf("%s %s seed=%d: %s; evaluations=%d distinct_nontrivial=%d violations=%d wall=%.1fs\n",
@@ -382,4 +399,11 @@ func sortedCounters(m map[string]int64) map[string]int64 {
 		out[k] = m[k]
 	}
 	return out
+}
+
+func b2i(b bool) int64 {
+	if b {
+		return 1
+	}
+	return 0
 }
